@@ -58,7 +58,8 @@ class ModelLock:
 class Scheduler:
     """one controlled execution of several thread bodies under a given choice prefix"""
 
-    def __init__(self, bodies, codes, prefix=(), state_fn=None, invariant=None, max_steps=4000):
+    def __init__(self, bodies, codes, prefix=(), state_fn=None, invariant=None, max_steps=4000, line_events=True):
+        self.line_events = line_events  # False: only the entry of a chosen function is a scheduling point
         self.bodies = bodies
         self.codes = codes  # set of code objects whose line events are scheduling points
         self.prefix = list(prefix)
@@ -104,7 +105,7 @@ class Scheduler:
 
             # the call itself is a point too (position = function entry)
             self.yield_point(me, (frame.f_code.co_name, "call"))
-            return local
+            return local if self.line_events else None
         return None
 
     def _thread_main(self, i):
@@ -204,3 +205,50 @@ def explore(make_run, max_executions=200000, prune=True):
             for alt in range(1, x.points[i]):
                 stack.append(x.choices[:i] + [alt])
     return dict(executions=executions, states=len(seen), violations=violations, complete=complete)
+
+
+def explore_bounded(make_run, bound, max_executions=200000):
+    """Preemption-bounded DFS without state pruning (the idiom of iterative context bounding): every schedule
+    with at most `bound` preemptions is executed.  Choice 0 always continues the thread that ran last when
+    it is still enabled, so any other choice at such a point is a preemption; choices at points where the last
+    thread is finished or blocked are free.
+    make_run(prefix) -> finished Scheduler.  Returns dict(executions, violations, complete, points_max)."""
+    stack = [[]]
+    executions = 0
+    violations = []
+    complete = True
+    points_max = 0
+    while stack:
+        prefix = stack.pop()
+        if executions >= max_executions:
+            complete = False
+            break
+        x = make_run(prefix)
+        executions += 1
+        points_max = max(points_max, len(x.choices))
+        if x.violation:
+            violations.append((list(x.choices), x.violation))
+            if len(violations) >= 10:
+                complete = False
+                break
+            continue
+        # preemptions used before each decision point
+        used = 0
+        last = None
+        pre = []
+        for i, (k, order) in enumerate(zip(x.choices, x.enabled_log)):
+            pre.append(used)
+            t = order[k]
+            if last is not None and last in order and t != last:
+                used += 1
+            last = t
+        last = None
+        for i in range(len(x.choices)):
+            order = x.enabled_log[i]
+            if i >= len(prefix):
+                for alt in range(1, x.points[i]):
+                    cost = pre[i] + (1 if (last is not None and last in order) else 0)
+                    if cost <= bound:
+                        stack.append(x.choices[:i] + [alt])
+            last = order[x.choices[i]]
+    return dict(executions=executions, violations=violations, complete=complete, points_max=points_max)
